@@ -18,7 +18,10 @@ def build_variant(v):
     q = {"generic": P.Query, "mysql": P.MySQLQuery}[v["qcls"]]
     if v.get("path") == "derived":
         t = P.Table(v["name"], schema=sch, query_cls=q)
-        hash(t), str(t), {t: 1}, str(q.from_(t).select(t.star))  # the base has a history before it is derived from
+        try:
+            hash(t), str(t), {t: 1}, str(q.from_(t).select(t.star))  # the base has a history before it is derived from
+        except TypeError:
+            pass  # (an unhashable table is a verdict of the universe below - PT_Eq!Unhash - not a reason to stop)
         if v["alias"]:
             t = t.as_(v["alias"])
     else:
